@@ -363,7 +363,7 @@ fn mk_inputs(secret: &[u8; 32], tc: u64) -> CircuitInputs {
     }
 }
 
-const N_OPS: u64 = 28;
+const N_OPS: u64 = 29;
 
 fn op_name(op: u64) -> &'static str {
     match op {
@@ -394,6 +394,7 @@ fn op_name(op: u64) -> &'static str {
         25 => "Nullifier::from_field_elements(malformed outside the secret)",
         26 => "UnspendableAccount::from_bytes(malformed outside the secret)",
         27 => "UnspendableAccount::from_field_elements(malformed outside the secret)",
+        28 => "SensitiveFelts::new(vector with spare capacity)",
         _ => "drop all held objects",
     }
 }
@@ -601,6 +602,18 @@ fn run_sequence(secret: [u8; 32], tc: u64, ops: &[u64], order_seed: u64) -> (Vec
                         }
                         drop(m);
                     }
+                    28 => {
+                        // the public wrapper for secret felts, handed a vector whose capacity exceeds its length
+                        // (a wrapper that shrinks or re-boxes the buffer releases the original block unscrubbed)
+                        let sf = bytes_to_digest(digest);
+                        let extra = [0usize, 1, 4, 12, 60][rs.usize(5)];
+                        let mut v: Vec<F> = Vec::with_capacity(4 + 2 + extra);
+                        v.extend_from_slice(&sf);
+                        if rs.bool() {
+                            v.extend(u64_to_felts(tc));
+                        }
+                        held.push(Some(Held::Felts(SensitiveFelts::new(v))));
+                    }
                     22 => {
                         let live: Vec<usize> = held.iter().enumerate().filter(|(_, h)| h.is_some()).map(|(i, _)| i).collect();
                         if !live.is_empty() {
@@ -673,7 +686,7 @@ fn derive_secret(seed: u64) -> [u8; 32] {
 pub fn run_c33(ctx: &Ctx) {
     let n = ctx.tier.pick(400_000usize, 12_000_000);
     ctx.set_rule(&format!(
-        "{} generated sequences (length 1..30) over the secret-handling operations: Secret::{{new (valid and invalid, checking the caller's buffer is zeroed), from(BytesDigest), from(Digest), try_from, expose_digest, expose_felts, drop}}, Nullifier::{{new, from_preimage, from(&inputs), to_bytes, from_bytes, to_field_elements, from_field_elements, drop}}, the same eight for UnspendableAccount, the four decoders on encodings damaged outside the secret (length +-k, a limb before or after the secret made non-canonical / above 2^32: error paths taken after the secret has been copied), building and dropping PrivateCircuitInputs/CircuitInputs, with generated drop order; \
+        "{} generated sequences (length 1..30) over the secret-handling operations: Secret::{{new (valid and invalid, checking the caller's buffer is zeroed), from(BytesDigest), from(Digest), try_from, expose_digest, expose_felts, drop}}, Nullifier::{{new, from_preimage, from(&inputs), to_bytes, from_bytes, to_field_elements, from_field_elements, drop}}, the same eight for UnspendableAccount, SensitiveFelts::new on a vector with spare capacity, the four decoders on encodings damaged outside the secret (length +-k, a limb before or after the secret made non-canonical / above 2^32: error paths taken after the secret has been copied), building and dropping PrivateCircuitInputs/CircuitInputs, with generated drop order; \
          the secret is derived inside the case from a generated seed into a stack array (patterns with a zero limb, a p-1 limb, repeated limbs). The harness allocator, armed on the executing thread, scans every block that thread frees (or reallocates) for the 32-byte image (byte form = little-endian felt form). \
          Oracle: no freed block contains the image unless it is byte-identical to one of the two upstream pad10_to_rate buffers reconstructed for this (secret, transfer count); Secret::new leaves the caller's buffer all-zero for valid and invalid input. Non-trivial: sequence containing a serialisation or hashing call; distinct by (secret seed, op sequence).",
         n));
